@@ -6,6 +6,10 @@
 import GrogModel.Lemmas.WalkerLive
 import GrogModel.Lemmas.WalkerExamples
 import GrogModel.Lemmas.Pool
+import GrogModel.Lemmas.Sys
+import GrogModel.Lemmas.BuildFail
+import GrogModel.Props.C01
+import GrogModel.Props.C15
 namespace Grog.C05
 open Grog.Walker
 
@@ -43,6 +47,18 @@ example : Reach (Ex.chain2 false) (Ex.after (Ex.chain2 false) Ex.failedRun) ∧
     (Ex.after (Ex.chain2 false) Ex.failedRun).phase 1 = .exited :=
   ⟨Ex.reach_after (by decide), by decide, by decide, by decide⟩
 
+/-- …and on the diamond (0 ← {1,2} ← 3, unselected dependant 4): 0 ok, 1 fails while 2 is still running, 2 finishes ok: exactly the
+    dependant 3 of the failure is skipped, the healthy sibling 2 is built, the unselected node is untouched -/
+example : Reach (Ex.diamond false) (Ex.after (Ex.diamond false) Ex.diamondFailRun) ∧
+    (Ex.after (Ex.diamond false) Ex.diamondFailRun).ctx = false ∧
+    (∀ n, n ∈ (Ex.diamond false).sel → ((Ex.after (Ex.diamond false) Ex.diamondFailRun).phase n).terminal = true) ∧
+    ((Ex.after (Ex.diamond false) Ex.diamondFailRun).phase 0, (Ex.after (Ex.diamond false) Ex.diamondFailRun).phase 1,
+     (Ex.after (Ex.diamond false) Ex.diamondFailRun).phase 2, (Ex.after (Ex.diamond false) Ex.diamondFailRun).phase 3,
+     (Ex.after (Ex.diamond false) Ex.diamondFailRun).phase 4) = (.ok, .failed, .ok, .exited, .parked) ∧
+    Anc (Ex.diamond false) 1 3 ∧ ¬ Anc (Ex.diamond false) 1 2 :=
+  ⟨Ex.reach_after (by decide), by decide, by decide, by decide, Ex.diamond_anc.mpr (by decide),
+   fun h => absurd (Ex.diamond_anc.mp h) (by decide)⟩
+
 /-- A callback is never entered below a failure: `wake n` is enabled only if every transitive
     dependency is `ok` — in particular none is `failed` or `exited` (all modes, all schedules). -/
 theorem no_exec_below_failure {c : Cfg} {s s' : State} (ok : CfgOK c) (h : Reach c s)
@@ -79,23 +95,38 @@ theorem fail_fast_trigger {c : Cfg} {s s' : State} {n : Node} (ok : CfgOK c) (h 
 example : (step (Ex.chain2 true) (Ex.after (Ex.chain2 true) [.wake 0, .cbReturn 0 .fail]) (.complete 0)).isSome = true ∧
     (Ex.after (Ex.chain2 true) [.wake 0, .cbReturn 0 .fail]).phase 0 = .returned false := by decide
 
-/-- Fail-fast, every schedule: in every reachable state in which a failure has been observed (some
-    completion is a failure) the walk context is cancelled; under a cancelled task context the pool
-    model has no enabled `cmdStart` (`exec.CommandContext` — trusted base), so no further target
-    command starts. Callbacks may still be entered; they cannot start a command. -/
-theorem fail_fast_no_command_start {c : Cfg} {s : State} (ok : CfgOK c) (h : Reach c s)
-    (hF : c.failFast = true) {a : Node} (hf : s.phase a = .failed)
-    (p : Pool.State) (hp : p.taskCtx = s.ctx) (w : Nat) :
-    s.ctx = true ∧ Pool.step p (.cmdStart w) = none := by
-  have inv := reach_inv ok h
+/-- Fail-fast, every schedule, on the composition walker × tasks: in every reachable state of `Sys` in which a failure has been
+    observed (some completion is a failure) the walk context is cancelled and NO task can start a command — for every node, whatever
+    the state of its task. Callbacks may still be entered (a routine that finds both `ready` and `cancel` may take `ready`) and a
+    task that was taken may still answer from the cache (`getTaskFunc`'s hit branch does not look at the context): a target can
+    still be *restored* and recorded `ok` after the failure was observed; what cannot happen is that a command starts. -/
+theorem fail_fast_no_command_start {c : Cfg} {s : Sys.State} (ok : CfgOK c) (h : Sys.Reach c s)
+    (hF : c.failFast = true) {a : Node} (hf : s.w.phase a = .failed) :
+    s.w.ctx = true ∧ ∀ n, Sys.step c s (.cmdStart n) = none := by
+  have inv := reach_inv ok (Sys.reach_walker h)
   have hc := inv.ffCtx (inv.failedFF hF a hf)
-  refine ⟨hc, ?_⟩
-  simp only [Pool.step]
-  split <;> simp_all
+  exact ⟨hc, fun n => by simp [Sys.step, hc]⟩
 
-example : Reach (Ex.chain2 true) (Ex.after (Ex.chain2 true) Ex.ffRun) ∧
-    (Ex.after (Ex.chain2 true) Ex.ffRun).phase 0 = .failed :=
-  ⟨Ex.reach_after (by decide), by decide⟩
+/-- fail-fast on the diamond, composed: the tasks of 1 and 2 are both on a worker, 1 is inside its command and fails, 2 has not
+    started its command yet: the failure is observed, and the command of 2 can no longer start -/
+example : ∃ s, Sys.Reach (Ex.diamond true) s ∧ s.w.phase 1 = .failed ∧ s.task 2 = .busy false ∧
+    Sys.step (Ex.diamond true) s (.cmdStart 2) = none := by
+  have h0 : Sys.Reach (Ex.diamond true) (Sys.init _) := Sys.Reach.init
+  have h1 := Sys.Reach.step h0 (e := .walker (.wake 0)) (s' := _) rfl
+  have h2 := Sys.Reach.step h1 (e := .cbReturn 0 .ok) (s' := _) rfl
+  have h3 := Sys.Reach.step h2 (e := .walker (.complete 0)) (s' := _) rfl
+  have h4 := Sys.Reach.step h3 (e := .walker (.wake 1)) (s' := _) rfl
+  have h5 := Sys.Reach.step h4 (e := .walker (.wake 2)) (s' := _) rfl
+  have h6 := Sys.Reach.step h5 (e := .submit 1) (s' := _) rfl
+  have h7 := Sys.Reach.step h6 (e := .submit 2) (s' := _) rfl
+  have h8 := Sys.Reach.step h7 (e := .take 1) (s' := _) rfl
+  have h9 := Sys.Reach.step h8 (e := .take 2) (s' := _) rfl
+  have h10 := Sys.Reach.step h9 (e := .cmdStart 1) (s' := _) rfl
+  have h11 := Sys.Reach.step h10 (e := .cmdEnd 1) (s' := _) rfl
+  have h12 := Sys.Reach.step h11 (e := .done 1) (s' := _) rfl
+  have h13 := Sys.Reach.step h12 (e := .cbReturn 1 .fail) (s' := _) rfl
+  have h14 := Sys.Reach.step h13 (e := .walker (.complete 1)) (s' := _) rfl
+  exact ⟨_, h14, by decide, by decide, by decide⟩
 
 /-- once fail-fast is triggered, later successful completions release nobody -/
 theorem fail_fast_no_release {c : Cfg} {s : State} (n : Node) (hff : s.ff = true) :
@@ -126,38 +157,149 @@ theorem ctx_stays_cancelled {c : Cfg} {s s' : State} {e : Ev} (hs : step c s e =
     obtain ⟨_, hh⟩ := step_walkReturn.mp hs
     rcases hh with ⟨_, _, rfl⟩ | ⟨_, _, rfl⟩ <;> exact hc
 
-/-- Failures are never cached: on every path of the task tail on which the callback does not report
-    success (non-zero exit, timeout, start error, cancellation, failing re-check of the output checks,
-    missing declared output / failed CAS write, failed result write) no target result is written;
-    and success writes it. -/
+/-! ### failures are never cached — on the build model (`Exec.buildTarget`, `Build.build`)
+
+  The cache here is the real model state `BState.cache` (result records, CAS, taints) of the build group; `okAt s l` is "the
+  target's status after the step/build is ok". Mode `all`; mode `minimal` has the same cache, verdicts and log by the C15
+  lock-step theorem. -/
+
+section build
+open Grog.Exec Grog.Build
+variable {κ : Type} [DecidableEq κ]
+
+/-- **One target.** A step of the build after which its target is not ok — dependency failed, or the command ran and exited
+    non-zero / a check fails afterwards / a declared output is missing — leaves the whole cache as it was: no result record, no
+    blob, no taint change; the target's status is the failure status. (`Exec.execTarget_false` lifted over all branches of the
+    decision; the converse direction is `C14.stored_only_on_success`.) -/
+theorem failed_step_stores_nothing (P : Params κ) (cfg : Exec.Cfg) (defs : Defs) (fuel : Nat) (t : Target) (s : BState κ)
+    (hm : cfg.minimal = false) (hn : ¬ okAt (buildTarget P cfg defs fuel t s) t.label) :
+    (buildTarget P cfg defs fuel t s).cache = s.cache ∧ (buildTarget P cfg defs fuel t s).st t.label = some failStat :=
+  buildTarget_not_ok_cache P cfg defs fuel t s hm hn
+
+/-- **…and why it failed**: if its dependencies were ok, the command was executed (the label enters the log) and it exited
+    non-zero, or a check fails on what it left, or a declared output is missing. -/
+theorem failed_step_ran (P : Params κ) (cfg : Exec.Cfg) (defs : Defs) (fuel : Nat) (t : Target) (s : BState κ)
+    (hm : cfg.minimal = false) (hn : ¬ okAt (buildTarget P cfg defs fuel t s) t.label)
+    (hd : depsOk s.st t.deps = true) (ho : depOhs s.st t.hdeps ≠ none) :
+    (buildTarget P cfg defs fuel t s).log = t.label :: s.log ∧
+    ((P.run t.cmd (viewAt defs t s.fs)).exit0 = false ∨ checksPass (fsAfter P defs t s.fs) t.checks = false ∨
+      collect (fsAfter P defs t s.fs) t.outs = none) :=
+  buildTarget_not_ok_ran P cfg defs fuel t s hm hn hd ho
+
+/-- **Two builds: a failed target is attempted again.** Build `order` from any world with a sound cache (every cache reachable
+    from the empty one is: `C01.cacheSound_preserved`) and any workspace; then build again from what the first build left
+    (its workspace, its cache; same definitions; the flags may differ). Every target that was not ok in the first build is not ok in
+    the second either — it is never answered from the cache as a success —, and if its dependencies were ok its command is
+    executed again: its label is in the second build's log. -/
+theorem failed_target_is_attempted_again {P : Params κ} (hG : Good P) (hfx : P.fx.gateChecks = true) (cfg₁ cfg₂ : Exec.Cfg)
+    (hm₁ : cfg₁.minimal = false) (hm₂ : cfg₂.minimal = false) (w : World κ) (order : List Lbl) (hwf : WF w.defs order)
+    (hs : CacheSound P w.cache) :
+    let s₁ := build P cfg₁ w order
+    let s₂ := build P cfg₂ { w with fs := s₁.fs, cache := s₁.cache } order
+    ∀ l ∈ order, ∀ t, w.defs l = some t → ¬ okAt s₁ l →
+      ¬ okAt s₂ l ∧ ((∀ d ∈ t.deps, okAt s₁ d) → l ∈ s₂.log) := by
+  intro s₁ s₂ l hl t ht hn
+  have hI1 := run_inv hG hfx hm₁ hwf (fuelFor order) (start w) _
+    (inv_start (P := P) (defs := w.defs) (order := order) w hs w.fs (fun _ _ => rfl))
+  have hs1 : CacheSound P s₁.cache := hI1.sound
+  have hoff : ∀ p, (∀ l ∈ order, ∀ t, w.defs l = some t → p ∉ outPaths t) → w.fs p = s₁.fs p := by
+    intro p hp
+    exact (run_fs_off hG hm₁ w.defs (fuelFor order) order (start w)
+      (fun l hl t ht => (hwf.hdeps l hl t ht).2.1) p hp).symm
+  have hI2 := run_inv hG hfx hm₂ hwf (fuelFor order) (start { w with fs := s₁.fs, cache := s₁.cache }) _
+    (inv_start (P := P) (defs := w.defs) (order := order) { w with fs := s₁.fs, cache := s₁.cache } hs1 w.fs
+      (fun p hp => (hoff p hp).symm))
+  have hiff : ∀ l ∈ order, okAt s₁ l ↔ okAt s₂ l := fun l hl => (hI1.okIff l hl).trans (hI2.okIff l hl).symm
+  refine ⟨fun h => hn ((hiff l hl).2 h), fun hdeps => ?_⟩
+  have hA := attempted_run_aux hG hfx hm₂ hwf (fuelFor order) order [] (start { w with fs := s₁.fs, cache := s₁.cache }) _
+    (by simp) (inv_start (P := P) (defs := w.defs) (order := order) { w with fs := s₁.fs, cache := s₁.cache } hs1 w.fs
+      (fun p hp => (hoff p hp).symm)) (fun l hl => by simp at hl)
+  obtain ⟨pre, suf, hsplit⟩ := List.append_of_mem hl
+  have hdo : ∀ d ∈ t.deps, d ∈ order := by
+    intro d hd
+    have := hwf.topo pre l suf hsplit t ht d hd
+    rw [hsplit]; simp [this]
+  exact hA l (by simpa using hl) t ht (fun h => hn ((hiff l hl).2 h)) (fun d hd => (hiff d (hdo d hd)).1 (hdeps d hd))
+
+/-- a key type with an injective key function (the key *is* the key-state) and a world in which every command fails -/
+inductive FKey where
+  | mk (ks : KeyState FKey)
+
+noncomputable instance : DecidableEq FKey := fun a b => Classical.propDecidable (a = b)
+
+noncomputable def failP : Params FKey := ⟨FKey.mk, fun _ _ => ⟨false, [], []⟩, Fixes.current⟩
+
+theorem failP_good : Good failP := ⟨fun a b h => by cases h; rfl, fun c v h => by simp [failP] at h, fun c v => rfl⟩
+
+/-- the two-build theorem instantiated: the one-target workspace of `C15.exDefs` (target `[1]` declares output `[9]`), its command
+    fails; empty cache. The first build leaves `[1]` not ok, the second build — from the first one's cache and workspace — executes it
+    again. All hypotheses of `failed_target_is_attempted_again` are discharged here, none is vacuous. -/
+example :
+    let w : World FKey := ⟨C15.exDefs, fun _ => none, emptyCache⟩
+    let s₁ := build failP ⟨true, false⟩ w [[1]]
+    let s₂ := build failP ⟨true, false⟩ { w with fs := s₁.fs, cache := s₁.cache } [[1]]
+    ¬ okAt s₁ [1] ∧ ¬ okAt s₂ [1] ∧ [1] ∈ s₂.log := by
+  intro w s₁ s₂
+  have hwf : WF w.defs [[1]] := C15.exBuildOK.wf
+  have hs : CacheSound failP w.cache := C01.cacheSound_empty failP
+  have hI1 := run_inv failP_good rfl (cfg := ⟨true, false⟩) rfl hwf (fuelFor [[1]]) (start w) _
+    (inv_start (P := failP) (defs := w.defs) (order := [[1]]) w hs w.fs (fun _ _ => rfl))
+  have hn : ¬ okAt s₁ [1] := by
+    intro h
+    have := (hI1.okIff [1] (by simp)).1 h
+    simp [cleanRun, Spec.cleanStep, Spec.cleanTarget, w, C15.exDefs, mkT, failP] at this
+  have ht : w.defs [1] = some (mkT [1] [⟨false, [9]⟩] [] false) := by simp [w, C15.exDefs]
+  have := failed_target_is_attempted_again failP_good rfl ⟨true, false⟩ ⟨true, false⟩ rfl rfl w [[1]] hwf hs [1] (by simp) _ ht hn
+  exact ⟨hn, this.1, this.2 (fun d hd => by simp [mkT] at hd)⟩
+
+end build
+
+/-! ### the task tail: which errors are failures, which are cancellations
+
+  `Pool.execTail` is a classification table of `executeTarget`'s error paths (the build model above has only "exit 0 or not").
+  `failed_not_cached` and `tail_failure_kinds` are case analyses of that table — true by its construction; what they record is
+  the *order* of the stages (the result record is written last, on the success path only) and which paths wrap
+  `context.Canceled`. The statements with content about the cache are the three above. -/
+
+/-- on every path of the task tail on which the callback does not report success (non-zero exit, timeout, start error,
+    cancellation at any stage, failing re-check of the output checks, missing declared output / failed CAS write, failed result
+    write) no target result is written; and success writes it. -/
 theorem failed_not_cached (i : Pool.TailIn) :
     ((Pool.execTail i).res ≠ .ok → (Pool.execTail i).resultWritten = false) ∧
     ((Pool.execTail i).res = .ok → (Pool.execTail i).resultWritten = true) := by
   obtain ⟨cmd, a, b, d, e⟩ := i
   cases cmd <;> cases a <;> cases b <;> cases d <;> cases e <;> decide
 
-example : (Pool.execTail ⟨.ok, true, true, false, true⟩).res = .fail := by decide   -- missing declared output
-example : (Pool.execTail ⟨.timeout, true, true, true, true⟩) = ⟨.fail, false⟩ := by decide
+example : (Pool.execTail ⟨.ok, .ok, true, .fail, .ok⟩).res = .fail := by decide   -- missing declared output
+example : (Pool.execTail ⟨.timeout, .ok, true, .ok, .ok⟩) = ⟨.fail, false⟩ := by decide
+example : (Pool.execTail ⟨.ok, .cancelled, true, .ok, .ok⟩) = ⟨.cancelled, false⟩ := by decide   -- interrupted during the re-check
 
-/-- a target with several declared outputs fails (and writes no result) as soon as ANY of them is missing /
+/-- a target with several declared outputs does not succeed (and writes no result) as soon as ANY of them is missing /
     cannot be written, wherever it stands in the declaration order -/
 theorem missing_any_declared_output_fails (writers : List Bool) (h : false ∈ writers)
-    (recheck bin res : Bool) :
-    Pool.execTail ⟨.ok, recheck, bin, Pool.writeOutputsOk writers, res⟩ = ⟨.fail, false⟩ := by
-  have hw : Pool.writeOutputsOk writers = false := by
-    simp only [Pool.writeOutputsOk]
-    cases hall : writers.all id
-    · rfl
-    · have := List.all_eq_true.mp hall false h
-      simp at this
-  cases recheck <;> cases bin <;> cases res <;> simp [Pool.execTail, hw]
+    (cmd : Pool.CmdOutcome) (recheck : Pool.StageRes) (bin : Bool) (res : Pool.StageRes) :
+    (Pool.execTail ⟨cmd, recheck, bin, Pool.writeOutputsRes writers, res⟩).res ≠ .ok ∧
+    (Pool.execTail ⟨cmd, recheck, bin, Pool.writeOutputsRes writers, res⟩).resultWritten = false ∧
+    Pool.execTail ⟨.ok, .ok, true, Pool.writeOutputsRes writers, res⟩ = ⟨.fail, false⟩ := by
+  have hw : Pool.writeOutputsRes writers = .fail := by
+    have hall : writers.all id = false := by
+      cases hall : writers.all id
+      · rfl
+      · have := List.all_eq_true.mp hall false h
+        simp at this
+    simp [Pool.writeOutputsRes, Pool.writeOutputsOk, hall]
+  rw [hw]
+  cases cmd <;> cases recheck <;> cases bin <;> cases res <;> decide
 
-example : Pool.execTail ⟨.ok, true, true, Pool.writeOutputsOk [false, true], true⟩ = ⟨.fail, false⟩ := by decide
+example : Pool.execTail ⟨.ok, .ok, true, Pool.writeOutputsRes [false, true], .ok⟩ = ⟨.fail, false⟩ := by decide
 
-/-- The result that reaches the walker is a failure exactly for the four failure kinds of the
-    property (and for storage errors); a cancellation is not a failure. -/
+/-- The result that reaches the walker is a cancellation exactly when the command, or a later stage that was reached, was
+    interrupted (each wraps `context.Canceled` with `%w`); every other unsuccessful path — the four failure kinds of the property
+    and storage errors — is a failure. -/
 theorem tail_failure_kinds (i : Pool.TailIn) :
-    (Pool.execTail i).res = .cancelled ↔ i.cmd = .cancelled := by
+    (Pool.execTail i).res = .cancelled ↔
+      (i.cmd = .cancelled ∨ (i.cmd = .ok ∧ (i.recheck = .cancelled ∨
+        (i.recheck = .ok ∧ i.binOk = true ∧ (i.writeOutputs = .cancelled ∨ (i.writeOutputs = .ok ∧ i.resultWrite = .cancelled)))))) := by
   obtain ⟨cmd, a, b, d, e⟩ := i
   cases cmd <;> cases a <;> cases b <;> cases d <;> cases e <;> decide
 
